@@ -197,10 +197,12 @@ def cached_tasks_loop(ctx: Ctx):
             d = rd.single_def(an, a0.id)
             dv = rd.def_value(d, a0.id) if d is not None else None
             val = bool(dv and dv[0] == 'value' and dv[1] is ld)
+        elif a0 is ld:
+            val = True      # `tasks.append(<load>)`: the append cannot raise what the handler catches
         # success always appends: from the normal successor of load, every path to the loop header/exit passes the append
         ld_n = g.primary(ld)
         succs = [t2 for (t2, lab) in g.succ[ld_n] if lab != 'exc']
-        always = all(not (g.reachable([s], avoid=[an], exc=False) & ({header} | {g.primary(outer)})) or s == an for s in succs)
+        always = an == ld_n or all(not (g.reachable([s], avoid=[an], exc=False) & ({header} | {g.primary(outer)})) or s == an for s in succs)
         ok_ab = (not back) and dom and val and always
     yield ctx.ob('C09.LOOP', ok_ab, fn, apps[0] if apps else inner, 'on success: append the loaded task once, then leave the type loop',
                  '' if ok_ab else 'a successfully loaded task is not appended exactly once (missing append, missing break, or another value appended)')
